@@ -482,4 +482,148 @@ example : FailedRun wDec { wCfg false with recv := { hasVerifyService := true } 
   refine .cons _ _ _ _ (by decide) (by intro pl; simp [FlexModel.Sec.gate, wDec]) ?_
   exact .nil _
 
+/-! ## 12. Round 6: every packet type is discarded before its handler runs when the frame is cut inside its headers
+or carries a hop limit above its maximum (classes of C04-m10 / C04-m12; the harness checks the same classes, and the
+own-address class of C04-m11, on the real router for every packet type: `check_header_classes`) -/
+
+/-- octets of extended header a handler must see before it may touch any state, by packet layout -/
+def mustHave (ht hst : Nat) : Nat :=
+  if ht = 1 then 24 else if ht = 2 then 48 else if ht = 3 then 44 else if ht = 4 then 44
+  else if ht = 5 then (if hst = 0 then 24 else 28)
+  else if ht = 6 then (if hst = 0 then 36 else 48) else 0
+
+private theorem geoPrologue_cut (h : Handler) (hst : Nat) (b : List Nat) (hb : b.length < 44) :
+    geoPrologue h hst b = .raised .decodeError := by
+  unfold geoPrologue; rw [if_pos hb]
+
+set_option hygiene false in
+local macro "peel " c:term : tactic =>
+  `(tactic| (by_cases hc : $c
+             · (rw [if_pos hc] at hx; cases hx)
+             rw [if_neg hc] at hx; clear hc))
+
+set_option hygiene false in
+local macro "cut " n:term : tactic =>
+  `(tactic| (have hcut : (p.drop 8).length < $n := by omega
+             rw [if_pos hcut] at hx; cases hx))
+
+theorem cut_header_never_handled (rhl : Nat) (p : List Nat)
+    (h : p.length < 8 + mustHave (byteAt p 1 / 16) (byteAt p 1 % 16)) (hd : Handler) :
+    commonStage rhl p ≠ .handled hd := by
+  have hl : (p.drop 8).length = p.length - 8 := by simp
+  intro hx
+  simp only [commonStage] at hx
+  unfold mustHave at h
+  peel (p.length < 8)
+  peel ((!Generated.Enums.CommonNH_values.contains (byteAt p 0 / 16)) = true)
+  peel ((!Generated.Enums.HeaderType_values.contains (byteAt p 1 / 16)) = true)
+  peel ((!hstOk (byteAt p 1 / 16) (byteAt p 1 % 16)) = true)
+  peel (byteAt p 6 < rhl)
+  peel (byteAt p 1 / 16 = 0)
+  by_cases e1 : byteAt p 1 / 16 = 1
+  · rw [if_pos e1] at hx h; cut 24
+  rw [if_neg e1] at hx h
+  by_cases e2 : byteAt p 1 / 16 = 2
+  · rw [if_pos e2] at hx h; cut 48
+  rw [if_neg e2] at hx h
+  by_cases e3 : byteAt p 1 / 16 = 3
+  · rw [if_pos e3] at hx h
+    rw [geoPrologue_cut _ _ _ (by omega)] at hx; cases hx
+  rw [if_neg e3] at hx h
+  by_cases e4 : byteAt p 1 / 16 = 4
+  · rw [if_pos e4] at hx h
+    rw [geoPrologue_cut _ _ _ (by omega)] at hx; cases hx
+  rw [if_neg e4] at hx h
+  by_cases e5 : byteAt p 1 / 16 = 5
+  · rw [if_pos e5] at hx h
+    by_cases s0 : byteAt p 1 % 16 = 0
+    · rw [if_pos s0] at hx h; cut 24
+    rw [if_neg s0] at hx h
+    by_cases s1 : byteAt p 1 % 16 = 1
+    · rw [if_pos s1] at hx; cut 28
+    rw [if_neg s1] at hx; cases hx
+  rw [if_neg e5] at hx h
+  by_cases e6 : byteAt p 1 / 16 = 6
+  · rw [if_pos e6] at hx h
+    by_cases s0 : byteAt p 1 % 16 = 0
+    · rw [if_pos s0] at hx h; cut 36
+    rw [if_neg s0] at hx h
+    by_cases s1 : byteAt p 1 % 16 = 1
+    · rw [if_pos s1] at hx; cut 48
+    rw [if_neg s1] at hx; cases hx
+  rw [if_neg e6] at hx; cases hx
+
+/-- a frame is handled only through the common-header stage of an unsecured packet -/
+theorem classify_handled_inv (cfg : Recv.Cfg) (f : List Nat) (hd : Handler) (hx : classify cfg f = .handled hd) :
+    4 ≤ f.length ∧ commonStage (byteAt f 3) (f.drop 4) = .handled hd := by
+  simp only [classify] at hx
+  by_cases c0 : f.length < 4
+  · rw [if_pos c0] at hx; cases hx
+  rw [if_neg c0] at hx
+  peel ((!Generated.Enums.BasicNH_values.contains (byteAt f 0 % 16)) = true)
+  peel (byteAt f 0 / 16 ≠ cfg.version)
+  by_cases n1 : byteAt f 0 % 16 = 1
+  · rw [if_pos n1] at hx
+    by_cases s : cfg.securityEnabled = true
+    · rw [if_pos s] at hx; cases hx
+    rw [if_neg s] at hx
+    exact ⟨by omega, hx⟩
+  rw [if_neg n1] at hx
+  by_cases n2 : byteAt f 0 % 16 = 2
+  · rw [if_pos n2] at hx
+    by_cases v : cfg.hasVerifyService = true
+    · rw [if_pos v] at hx; cases hx
+    rw [if_neg v] at hx; cases hx
+  rw [if_neg n2] at hx; cases hx
+
+private theorem byteAt_drop (f : List Nat) (k i : Nat) : byteAt (f.drop k) i = byteAt f (k + i) := by
+  simp [byteAt, List.getD]
+
+/-- RHL above MHL: no handler runs, whatever the packet type (beacon included) -/
+theorem rhl_above_mhl_never_handled (rhl : Nat) (p : List Nat) (h : byteAt p 6 < rhl) (hd : Handler) :
+    commonStage rhl p ≠ .handled hd := by
+  unfold commonStage
+  simp only [h, if_true]
+  split
+  · exact fun x => Outcome.noConfusion x
+  · split
+    · exact fun x => Outcome.noConfusion x
+    · split
+      · exact fun x => Outcome.noConfusion x
+      · split
+        · exact fun x => Outcome.noConfusion x
+        · exact fun x => Outcome.noConfusion x
+
+/-- whole frame, every configuration: a frame cut anywhere inside Basic Header, Common Header or the extended header of
+its packet type (nothing behind the cut) reaches no handler: no DAD, no location-table update, no delivery -/
+theorem cut_frame_never_handled (cfg : Recv.Cfg) (f : List Nat)
+    (h : f.length < 12 + mustHave (byteAt f 5 / 16) (byteAt f 5 % 16)) (hd : Handler) :
+    classify cfg f ≠ .handled hd := by
+  intro hx
+  obtain ⟨h4, hc⟩ := classify_handled_inv cfg f hd hx
+  refine cut_header_never_handled _ (f.drop 4) ?_ hd hc
+  have e : byteAt (f.drop 4) 1 = byteAt f 5 := byteAt_drop f 4 1
+  have l : (f.drop 4).length = f.length - 4 := by simp
+  rw [e, l]; omega
+
+/-- whole frame, every configuration, every packet type: Basic Header RHL above Common Header MHL reaches no handler -/
+theorem rhl_above_mhl_frame_never_handled (cfg : Recv.Cfg) (f : List Nat) (h : byteAt f 10 < byteAt f 3)
+    (hd : Handler) : classify cfg f ≠ .handled hd := by
+  intro hx
+  obtain ⟨_, hc⟩ := classify_handled_inv cfg f hd hx
+  have e : byteAt (f.drop 4) 6 = byteAt f 10 := byteAt_drop f 4 6
+  exact rhl_above_mhl_never_handled _ _ (by rw [e]; exact h) hd hc
+
+/-- non-vacuity: a GBC frame cut 2 octets before the end of its extended header (C04-m10's frame) satisfies the
+hypothesis of `cut_frame_never_handled`; a beacon with RHL 255 / MHL 1 that of `rhl_above_mhl_frame_never_handled` -/
+example : let f := [0x11, 0, 5, 1] ++ [0x20, 0x40, 0, 0x80, 0, 0, 1, 0] ++ List.replicate 42 20
+    f.length < 12 + mustHave (byteAt f 5 / 16) (byteAt f 5 % 16) := by decide
+example : let f := [0x11, 0, 5, 255] ++ [0x00, 0x10, 0, 0x80, 0, 0, 1, 0] ++ List.replicate 24 20
+    byteAt f 10 < byteAt f 3 := by decide
+/-- ... and the complete frames are handled (the theorems do not hold for lack of handled frames) -/
+example : classify {} ([0x11, 0, 5, 1] ++ [0x20, 0x40, 0, 0x80, 0, 0, 1, 0] ++ List.replicate 44 20) = .handled .gbc := by
+  decide
+example : classify {} ([0x11, 0, 5, 1] ++ [0x00, 0x10, 0, 0x80, 0, 0, 1, 0] ++ List.replicate 24 20) = .handled .beacon := by
+  decide
+
 end Props.C04
